@@ -1211,9 +1211,16 @@ pub fn liveness(rng: &mut Rng) -> Program {
         if g.rng.chance(1, 2) {
             c.push(Op::Query { slot: base, running: g.rng.chance(1, 2) });
         }
-        match g.rng.below(4) {
+        match g.rng.below(5) {
             0 | 1 => {
                 c.push(Op::FromRegistry { k });
+                c.push(Op::Call { slot: next, script: vec![], cancel: None });
+                next += 1;
+            }
+            4 => {
+                // `setup()` is the other on-demand entry point: after it a live instance is registered
+                c.push(Op::Setup { k });
+                c.push(Op::TryFromRegistry { k });
                 c.push(Op::Call { slot: next, script: vec![], cancel: None });
                 next += 1;
             }
@@ -1452,6 +1459,10 @@ pub fn tree(rng: &mut Rng) -> Program {
             a.started = vec![SStep::Interval(d)];
         }
         a.aux_work = if g.rng.chance(1, 5) { 1 } else { 0 };
+        // parents that get restarted keep their children, whatever the restart strategy does to the actor value
+        if a.entry == Entry::Builder {
+            a.strategy = *g.rng.pick(&[Strategy::RestartOnly, Strategy::RestartOnly, Strategy::Recreate]);
+        }
         g.prog.actors.push(a);
     }
     g.layout(nclients);
@@ -1500,7 +1511,20 @@ pub fn tree(rng: &mut Rng) -> Program {
     // traffic: broadcasts, messages to children still held, sleeps
     let k = g.rng.range(1, 5);
     for _ in 0..k {
-        match g.rng.below(5) {
+        match g.rng.below(6) {
+            5 => {
+                // restart a parent (from outside or from its own context), then make sure it is through
+                let parents: Vec<usize> = (0..n).filter(|i| (0..n).any(|c| parent[c] == *i) && g.sk[0][*i].hk == Hk::Addr).collect();
+                if !parents.is_empty() {
+                    let p = *g.rng.pick(&parents) as u16;
+                    if g.rng.chance(1, 2) {
+                        g.prog.clients[0].push(Op::Restart { slot: p });
+                    } else {
+                        g.prog.clients[0].push(Op::Send { slot: p, script: vec![PStep::CtxRestart], cancel: None });
+                    }
+                    g.prog.clients[0].push(Op::Ping { slot: p, cancel: None });
+                }
+            }
             0 | 1 => {
                 let parents: Vec<usize> = (0..n).filter(|i| (0..n).any(|c| parent[c] == *i) && g.sk[0][*i].hk == Hk::Addr).collect();
                 if !parents.is_empty() {
